@@ -22,7 +22,7 @@ THEOREMS = [
     (NS + "C07_roles_hold_no_user_callbacks", "full"),
 ]
 # secondary tie (DESIGN 4.2): kernels regenerated from the source on every run, proved equal to the model (Props/Equiv<Group>.lean)
-EQUIV = {"Seq": ["Mpgs.Equiv.gen_diff"], "Ack": ["Mpgs.Equiv.gen_ack_names"]}
+EQUIV = {"Frag": ["Mpgs.Equiv.gen_split_loop", "Mpgs.Equiv.gen_split"], "Seq": ["Mpgs.Equiv.gen_diff"], "Ack": ["Mpgs.Equiv.gen_ack_names"]}
 ASSUMPTIONS = [
     "per-step statements for every state (one resolution = one entry removed, one counter, one event; False only from a time-out test, "
     "True only for datagrams the peer's header names; named => accepted by the peer; RetrySender/FragmentSender report once)",
